@@ -203,7 +203,7 @@ func vfRunTransfer(t *testing.T, spec *vfSpec, res *vfRes, o vfXferOpts) *vfXfer
 			if !out.drained {
 				a, b := w.buffered()
 				detail := ""
-				for _, r := range w.runs {
+				for _, r := range w.allRuns() {
 					if r.nRead.Load() < r.nWrit.Load() && r.cfg.RelType == ReliabilityTypeReliable {
 						detail += fmt.Sprintf(" [dir%d sid%d read %d of %d]", r.cfg.Dir, r.cfg.SID, r.nRead.Load(), r.nWrit.Load())
 					}
@@ -239,7 +239,7 @@ func vfRunTransfer(t *testing.T, spec *vfSpec, res *vfRes, o vfXferOpts) *vfXfer
 		w.waitReaders(10 * time.Second)
 		sim.finalLeakCheck()
 		out.mon = sim.runMonitors(o.mon)
-		for _, r := range w.runs {
+		for _, r := range w.allRuns() {
 			prop := "C01"
 			if r.cfg.RelType != ReliabilityTypeReliable || r.cfg.Unordered {
 				prop = "C06"
@@ -290,7 +290,7 @@ func vfFinalAccounting(sim *vfSim, w *vfWork, drained bool) {
 		}
 		a.lock.RUnlock()
 		unread := 0
-		for _, r := range w.runs {
+		for _, r := range w.allRuns() {
 			if 1-r.wside == side && r.cfg.Reader == "pause" {
 				unread++
 			}
@@ -300,7 +300,7 @@ func vfFinalAccounting(sim *vfSim, w *vfWork, drained bool) {
 		}
 		res.count("c11_final_credit_checked", 1)
 	}
-	for _, r := range w.runs {
+	for _, r := range w.allRuns() {
 		r.mu.Lock()
 		ws := r.wStream
 		r.mu.Unlock()
